@@ -1,0 +1,15 @@
+//go:build verif
+
+package dials
+
+import "sync/atomic"
+
+// VerifSched, when set, is called with the name of each schedule point the
+// calling goroutine passes. Only compiled in with the verif build tag.
+var VerifSched atomic.Pointer[func(point string)]
+
+func verifSched(point string) {
+	if f := VerifSched.Load(); f != nil {
+		(*f)(point)
+	}
+}
